@@ -1,4 +1,5 @@
-(* C06 - Mech refines Spec on the safe fragment; both stacks are restored by every statement and call *)
+(* C06 - Mech (the machine of the repaired code, Model.v) refines Spec for ALL programs; every statement
+   and every call restores both stacks below its own level. *)
 From Coq Require Import List Arith Bool Lia.
 Import ListNotations.
 From Cb Require Import C06.Model C06.Prims.
@@ -21,122 +22,60 @@ Proof.
     break_match H; try discriminate; inversion H; subst; rewrite ?app_nil_r; auto.
 Qed.
 
-Lemma body_safe : forall p g, safe_prog p = true -> safe_b false false false (body p g) = true.
+(* the machine state after a statement list, relative to the Spec result *)
+Definition rel (o : outcome) (st' : state) (D' T' : list nat) Ds Ts sc (t1 : list event) : Prop :=
+  st' = mk (D' :: Ds) (T' :: Ts) sc t1 \/
+  (o = ORet /\ st' = mk ([] :: Ds) ([] :: Ts) sc (t1 ++ map EDefer (rev D') ++ map EDtor (rev T'))).
+
+Lemma rel_close : forall o st' D' T' Ds Ts sc t1, rel o st' D' T' Ds Ts sc t1 ->
+  pop_destructor_scope st' = mk Ds Ts sc (t1 ++ map EDefer (rev D') ++ map EDtor (rev T')).
 Proof.
-  unfold safe_prog, body; intros p g H.
-  destruct (lt_dec g (length p)).
-  - rewrite forallb_forall in H. apply H. now apply nth_In.
-  - rewrite nth_overflow by lia. reflexivity.
+  intros o st' D' T' Ds Ts sc t1 [->|[_ ->]]; rewrite pop_destructor_scope_cc; auto.
+  simpl. now rewrite app_nil_r.
 Qed.
 
-Lemma nomix_of_flags : forall (D T : list nat) so sd,
-  (T <> [] -> so = true) -> (D <> [] -> sd = true) -> so && sd = false -> D = [] \/ T = [].
-Proof.
-  intros [|d D] [|t T] so sd H1 H2 H3; auto.
-  rewrite H1, H2 in H3 by discriminate. discriminate.
-Qed.
-
-Definition guard_s (s : stmt) (so sd : bool) : bool :=
-  match s with
-  | SObj _ => negb sd
-  | SDefer _ => negb so
-  | SRet => negb so && negb sd
-  | _ => true
-  end.
-
-Lemma flags_step : forall s (D T : list nat) so sd,
-  guard_s s so sd = true ->
-  (T <> [] -> so = true) -> (D <> [] -> sd = true) -> so && sd = false ->
-  (T ++ regT s <> [] -> so || is_obj s = true) /\
-  (D ++ regD s <> [] -> sd || is_defer s = true) /\
-  (so || is_obj s) && (sd || is_defer s) = false.
-Proof.
-  intros s D T so sd G H1 H2 H3.
-  destruct s; simpl in *; rewrite ?app_nil_r, ?orb_false_r, ?orb_true_r; auto;
-    destruct so, sd; simpl in *; try discriminate; auto.
-Qed.
+Lemma rel_close_scope : forall o st' D' T' Ds Ts sc t1, rel o st' D' T' Ds Ts sc t1 ->
+  pop_scope st' = mk Ds Ts (pred sc) (t1 ++ map EDefer (rev D') ++ map EDtor (rev T')).
+Proof. intros. unfold pop_scope. erewrite rel_close by eassumption. reflexivity. Qed.
 
 Section Ref.
 Variable p : prog.
-Hypothesis Hp : safe_prog p = true.
 
-Definition pre_s (s : stmt) (D T : list nat) : Prop :=
-  match s with SRet => D = [] /\ T = [] | _ => True end.
-
-Definition Ps (fuel : nat) : Prop := forall it s inl D T Ds Ts sc t0,
-  safe_s inl s = true -> pre_s s D T ->
+Definition Ps (fuel : nat) : Prop := forall it s D T Ds Ts sc t0,
   match sexec fuel p it s D T with
   | None => mexec fuel p it s (mk (D :: Ds) (T :: Ts) sc t0) = None
-  | Some (o, t, D', T') =>
-      mexec fuel p it s (mk (D :: Ds) (T :: Ts) sc t0) = Some (o, mk (D' :: Ds) (T' :: Ts) sc (t0 ++ t))
-      /\ (inl = true -> o <> ORet)
+  | Some (o, t, D', T') => exists st',
+      mexec fuel p it s (mk (D :: Ds) (T :: Ts) sc t0) = Some (o, st') /\
+      rel o st' D' T' Ds Ts sc (t0 ++ t) /\ (o <> ORet -> st' = mk (D' :: Ds) (T' :: Ts) sc (t0 ++ t))
   end.
 
-Definition Pb (fuel : nat) : Prop := forall it b inl so sd D T Ds Ts sc t0,
-  safe_b inl so sd b = true ->
-  (T <> [] -> so = true) -> (D <> [] -> sd = true) -> so && sd = false ->
+Definition Pb (fuel : nat) : Prop := forall it b D T Ds Ts sc t0,
   match sexec_b fuel p it b D T with
   | None => mexec_b fuel p it b (mk (D :: Ds) (T :: Ts) sc t0) = None
-  | Some (o, t, D', T') =>
-      mexec_b fuel p it b (mk (D :: Ds) (T :: Ts) sc t0) = Some (o, mk (D' :: Ds) (T' :: Ts) sc (t0 ++ t))
-      /\ (inl = true -> o <> ORet) /\ (D' = [] \/ T' = [])
+  | Some (o, t, D', T') => exists st',
+      mexec_b fuel p it b (mk (D :: Ds) (T :: Ts) sc t0) = Some (o, st') /\
+      rel o st' D' T' Ds Ts sc (t0 ++ t) /\ (o <> ORet -> st' = mk (D' :: Ds) (T' :: Ts) sc (t0 ++ t))
   end.
 
 Definition Pl (fuel : nat) : Prop := forall n i b Xs Ys sc t0,
-  safe_b true false false b = true ->
   match sloop fuel p n i b with
   | None => mloop fuel p n i b (mk Xs Ys sc t0) = None
-  | Some (o, t) =>
-      mloop fuel p n i b (mk Xs Ys sc t0) = Some (o, mk Xs Ys sc (t0 ++ t)) /\ o <> ORet
+  | Some (o, t) => mloop fuel p n i b (mk Xs Ys sc t0) = Some (o, mk Xs Ys sc (t0 ++ t))
   end.
 
-Lemma close_order : forall (t0 t : list event) (D' T' : list nat),
-  D' = [] \/ T' = [] ->
-  (t0 ++ t) ++ map EDtor (rev T') ++ map EDefer (rev D') =
-  t0 ++ t ++ map EDefer (rev D') ++ map EDtor (rev T').
-Proof.
-  intros t0 t D' T' [E|E]; subst; simpl; rewrite ?app_nil_r; now rewrite app_assoc.
-Qed.
-
-(* execute_compound_statement around a block = leaving a scope of the Spec; the stacks below are untouched *)
-Lemma compound_ref : forall f, Pb f -> forall it b inl Xs Ys sc t0,
-  safe_b inl false false b = true ->
+Lemma compound_ref : forall f, Pb f -> forall it b Xs Ys sc t0,
   match scope_close (sexec_b f p it b [] []) with
   | None => compound_close (mexec_b f p it b (push_destructor_scope (mk Xs Ys sc t0))) = None
   | Some (o, t) =>
       compound_close (mexec_b f p it b (push_destructor_scope (mk Xs Ys sc t0))) = Some (o, mk Xs Ys sc (t0 ++ t))
-      /\ (inl = true -> o <> ORet)
   end.
 Proof.
-  intros f HPb it b inl Xs Ys sc t0 Hs.
-  unfold push_destructor_scope; simpl.
-  specialize (HPb it b inl false false [] [] Xs Ys sc t0 Hs).
-  assert (H1 : @nil nat <> [] -> false = true) by (intro c; now contradiction c).
-  specialize (HPb H1 H1 eq_refl).
+  intros f HF it b Xs Ys sc t0. unfold push_destructor_scope; simpl.
+  specialize (HF it b [] [] Xs Ys sc t0).
   destruct (sexec_b f p it b [] []) as [[[[o t] D'] T']|]; simpl.
-  - destruct HPb as (E & Hr & Hm). rewrite E; simpl. rewrite pop_destructor_scope_cc.
-    split; auto. now rewrite close_order.
-  - now rewrite HPb.
-Qed.
-
-(* a user function call (call_impl.cpp) = the callee's body as a scope; caller levels untouched, no hook line *)
-Lemma call_ref : forall f, Pb f -> forall g D Ds T Ts sc t0,
-  match scope_close (sexec_b f p None (body p g) [] []) with
-  | None => mexec_b f p None (body p g) (push_scope (mk (D :: Ds) (T :: Ts) sc t0)) = None
-  | Some (o, t) => exists st',
-      mexec_b f p None (body p g) (push_scope (mk (D :: Ds) (T :: Ts) sc t0)) = Some (o, st') /\
-      guard_report g (mk (D :: Ds) (T :: Ts) sc t0) (pop_scope st') = mk (D :: Ds) (T :: Ts) sc (t0 ++ t)
-  end.
-Proof.
-  intros f HPb g D Ds T Ts sc t0.
-  unfold push_scope; simpl.
-  specialize (HPb None (body p g) false false false [] [] (D :: Ds) (T :: Ts) (S sc) t0 (body_safe p g Hp)).
-  assert (H1 : @nil nat <> [] -> false = true) by (intro c; now contradiction c).
-  specialize (HPb H1 H1 eq_refl).
-  destruct (sexec_b f p None (body p g) [] []) as [[[[o t] D'] T']|]; simpl.
-  - destruct HPb as (E & Hr & Hm). eexists; split; [exact E|].
-    rewrite pop_scope_cc; simpl. rewrite close_order by assumption. apply guard_report_same.
-  - exact HPb.
+  - destruct HF as (st' & E & R & _). rewrite E; simpl. erewrite rel_close by eassumption.
+    now rewrite <- app_assoc.
+  - now rewrite HF.
 Qed.
 
 Lemma ref_all : forall fuel, Ps fuel /\ Pb fuel /\ Pl fuel.
@@ -144,86 +83,68 @@ Proof.
   induction fuel as [|f (IHs & IHb & IHl)].
   - repeat split; red; intros; simpl; auto.
   - split; [|split].
-    + (* statements *)
-      red; intros it s inl D T Ds Ts sc t0 Hs Hpre.
-      destruct s; simpl in Hs |- *.
-      * rewrite declare_obj_cc. split; [reflexivity|discriminate].
-      * rewrite defer_stmt_cc. split; [reflexivity|discriminate].
-      * split; [reflexivity|discriminate].
-      * pose proof (compound_ref f IHb it b inl (D :: Ds) (T :: Ts) sc t0 Hs) as C.
+    + red; intros it s D T Ds Ts sc t0.
+      destruct s; simpl.
+      * rewrite declare_obj_cc. eexists; split; [reflexivity|]. split; [left|]; auto.
+      * rewrite defer_stmt_cc. eexists; split; [reflexivity|]. split; [left|]; auto.
+      * eexists; split; [reflexivity|]. split; [left|]; auto.
+      * pose proof (compound_ref f IHb it b (D :: Ds) (T :: Ts) sc t0) as C.
         destruct (scope_close (sexec_b f p it b [] [])) as [[o t]|]; simpl; auto.
-      * apply andb_prop in Hs; destruct Hs as [Ht He].
-        destruct (cond_true it c).
-        -- pose proof (compound_ref f IHb it t inl (D :: Ds) (T :: Ts) sc t0 Ht) as C.
+        eexists; split; [exact C|]. split; [left|]; auto.
+      * destruct (cond_true it c).
+        -- pose proof (compound_ref f IHb it t (D :: Ds) (T :: Ts) sc t0) as C.
            destruct (scope_close (sexec_b f p it t [] [])) as [[o t']|]; simpl; auto.
+           eexists; split; [exact C|]. split; [left|]; auto.
         -- destruct e as [|s' r'].
-           ++ rewrite app_nil_r. split; [reflexivity|discriminate].
-           ++ pose proof (compound_ref f IHb it (BCons s' r') inl (D :: Ds) (T :: Ts) sc t0 He) as C.
+           ++ rewrite app_nil_r. eexists; split; [reflexivity|]. split; [left|]; auto.
+           ++ pose proof (compound_ref f IHb it (BCons s' r') (D :: Ds) (T :: Ts) sc t0) as C.
               destruct (scope_close (sexec_b f p it (BCons s' r') [] [])) as [[o t']|]; simpl; auto.
+              eexists; split; [exact C|]. split; [left|]; auto.
       * unfold push_defer_scope; simpl.
-        pose proof (IHl n 0 b ([] :: D :: Ds) (T :: Ts) sc t0 Hs) as L.
+        pose proof (IHl n 0 b ([] :: D :: Ds) (T :: Ts) sc t0) as L.
         destruct (sloop f p n 0 b) as [[o t]|].
-        -- destruct L as [E Hne]. rewrite E.
-           destruct o; try congruence; rewrite pop_defer_scope_cons; simpl; rewrite app_nil_r;
-             (split; [reflexivity|discriminate]).
+        -- rewrite L.
+           destruct o; rewrite pop_defer_scope_cons; simpl; rewrite app_nil_r;
+             (eexists; split; [reflexivity|]; split; [left|]; auto).
         -- now rewrite L.
-      * pose proof (call_ref f IHb f0 D Ds T Ts sc t0) as C.
-        destruct (scope_close (sexec_b f p None (body p f0) [] [])) as [[o t]|].
-        -- destruct C as (st' & E & G). rewrite E, G. split; [reflexivity|].
-           intros _. destruct o; discriminate.
-        -- now rewrite C.
-      * destruct Hpre; subst. rewrite pre_return_cleanup_empty, app_nil_r.
-        split; [reflexivity|]. intros ->. discriminate.
-      * rewrite app_nil_r. split; [reflexivity|discriminate].
-      * rewrite app_nil_r. split; [reflexivity|discriminate].
-    + (* statement lists *)
-      red; intros it b inl so sd D T Ds Ts sc t0 Hs H1 H2 H3.
+      * unfold push_scope; simpl.
+        pose proof (IHb None (body p f0) [] [] (D :: Ds) (T :: Ts) (S sc) t0) as B.
+        destruct (sexec_b f p None (body p f0) [] []) as [[[[o t] D'] T']|]; simpl.
+        -- destruct B as (st' & E & R & _). rewrite E.
+           erewrite rel_close_scope by eassumption. simpl. rewrite guard_report_same.
+           eexists; split; [reflexivity|]. rewrite <- app_assoc. split; [left|]; auto.
+        -- now rewrite B.
+      * rewrite pre_return_cleanup_cc.
+        eexists; split; [reflexivity|]. rewrite app_nil_r. split; [right; auto|]. congruence.
+      * rewrite app_nil_r. eexists; split; [reflexivity|]. split; [left|]; auto.
+      * rewrite app_nil_r. eexists; split; [reflexivity|]. split; [left|]; auto.
+    + red; intros it b D T Ds Ts sc t0.
       destruct b as [|s r]; simpl.
-      * rewrite app_nil_r. split; [reflexivity|]. split; [discriminate|].
-        eapply nomix_of_flags; eauto.
-      * simpl in Hs. apply andb_prop in Hs; destruct Hs as [Hs Hr].
-        apply andb_prop in Hs; destruct Hs as [Hg Hss].
-        fold (guard_s s so sd) in Hg.
-        assert (Hpre : pre_s s D T).
-        { destruct s; simpl; auto. simpl in Hg. apply andb_prop in Hg; destruct Hg as [G1 G2].
-          apply negb_true_iff in G1, G2; subst.
-          split; [destruct D | destruct T]; auto.
-          - specialize (H2 ltac:(discriminate)); discriminate.
-          - specialize (H1 ltac:(discriminate)); discriminate. }
-        pose proof (IHs it s inl D T Ds Ts sc t0 Hss Hpre) as HS.
-        destruct (sexec f p it s D T) as [[[[o t] D1] T1]|] eqn:ES.
-        -- destruct HS as (E & Hret). rewrite E.
-           apply sexec_DT in ES; destruct ES as [-> ->].
-           destruct (flags_step s D T so sd Hg H1 H2 H3) as (F1 & F2 & F3).
-           destruct o;
-             try (split; [reflexivity|]; split; [assumption|]; eapply nomix_of_flags; eauto).
-           pose proof (IHb it r inl _ _ _ _ Ds Ts sc (t0 ++ t) Hr F1 F2 F3) as HB.
-           destruct (sexec_b f p it r (D ++ regD s) (T ++ regT s)) as [[[[o2 t2] D2] T2]|].
-           ++ destruct HB as (E2 & Hr2 & Hm2). rewrite E2, app_assoc. auto.
+      * rewrite app_nil_r. eexists; split; [reflexivity|]. split; [left|]; auto.
+      * pose proof (IHs it s D T Ds Ts sc t0) as HS.
+        destruct (sexec f p it s D T) as [[[[o t] D1] T1]|].
+        -- destruct HS as (st1 & E & R & N). rewrite E.
+           destruct o; try (eexists; split; [reflexivity|]; split; auto).
+           rewrite (N ltac:(discriminate)).
+           pose proof (IHb it r D1 T1 Ds Ts sc (t0 ++ t)) as HB.
+           destruct (sexec_b f p it r D1 T1) as [[[[o2 t2] D2] T2]|].
+           ++ destruct HB as (st2 & E2 & R2 & N2). rewrite E2, app_assoc.
+              eexists; split; [reflexivity|]. auto.
            ++ exact HB.
         -- now rewrite HS.
-    + (* loop iterations *)
-      red; intros n i b Xs Ys sc t0 Hs. simpl.
+    + red; intros n i b Xs Ys sc t0. simpl.
       destruct (n <=? i).
-      * rewrite app_nil_r. split; [reflexivity|discriminate].
-      * pose proof (compound_ref f IHb (Some i) b true Xs Ys sc t0 Hs) as C.
+      * now rewrite app_nil_r.
+      * pose proof (compound_ref f IHb (Some i) b Xs Ys sc t0) as C.
         destruct (scope_close (sexec_b f p (Some i) b [] [])) as [[o t]|].
-        -- destruct C as [E Hr]. rewrite E.
-           destruct o.
-           ++ pose proof (IHl n (S i) b Xs Ys sc (t0 ++ t) Hs) as L.
-              destruct (sloop f p n (S i) b) as [[o2 t2]|].
-              ** destruct L as [E2 Hn2]. rewrite E2, app_assoc. auto.
-              ** exact L.
-           ++ exfalso. now apply Hr.
-           ++ split; [reflexivity|discriminate].
-           ++ pose proof (IHl n (S i) b Xs Ys sc (t0 ++ t) Hs) as L.
-              destruct (sloop f p n (S i) b) as [[o2 t2]|].
-              ** destruct L as [E2 Hn2]. rewrite E2, app_assoc. auto.
-              ** exact L.
+        -- rewrite C. destruct o; auto.
+           ++ pose proof (IHl n (S i) b Xs Ys sc (t0 ++ t)) as L.
+              destruct (sloop f p n (S i) b) as [[o2 t2]|]; [now rewrite L, app_assoc|exact L].
+           ++ pose proof (IHl n (S i) b Xs Ys sc (t0 ++ t)) as L.
+              destruct (sloop f p n (S i) b) as [[o2 t2]|]; [now rewrite L, app_assoc|exact L].
         -- now rewrite C.
 Qed.
 
-(* whole program *)
 Lemma run_ref : forall fuel,
   match srun fuel p with
   | None => mrun fuel p = None
@@ -232,51 +153,65 @@ Lemma run_ref : forall fuel,
   end.
 Proof.
   intros fuel. unfold srun, mrun, init_state, push_scope; simpl.
-  destruct (ref_all fuel) as (_ & HPb & _).
-  specialize (HPb None (body p 0) false false false [] [] [] [[]] 2 [] (body_safe p 0 Hp)).
-  assert (H1 : @nil nat <> [] -> false = true) by (intro c; now contradiction c).
-  specialize (HPb H1 H1 eq_refl).
+  destruct (ref_all fuel) as (_ & HF & _).
+  specialize (HF None (body p 0) [] [] [] [[]] 2 []).
   destruct (sexec_b fuel p None (body p 0) [] []) as [[[[o t] D'] T']|].
-  - destruct HPb as (E & _ & Hm). rewrite E.
-    destruct o; simpl.
-    + rewrite pop_scope_cc; simpl. f_equal. f_equal. f_equal.
-      pose proof (close_order [] t D' T' Hm) as C. simpl in C. exact C.
-    + rewrite pop_scope_cc; simpl. f_equal. f_equal. f_equal.
-      pose proof (close_order [] t D' T' Hm) as C. simpl in C. exact C.
-    + eexists; split; reflexivity.
-    + eexists; split; reflexivity.
-  - now rewrite HPb.
+  - destruct HF as (st' & E & R & N). rewrite E.
+    destruct o.
+    + erewrite rel_close_scope by eassumption. reflexivity.
+    + erewrite rel_close_scope by eassumption. reflexivity.
+    + rewrite (N ltac:(discriminate)). eexists; split; reflexivity.
+    + rewrite (N ltac:(discriminate)). eexists; split; reflexivity.
+  - now rewrite HF.
 Qed.
-
 End Ref.
 
-(* statement-level corollary: in a safe program every statement (any outcome) restores both stacks
-   below its own scope and the variable-scope depth *)
-Lemma stmt_balanced : forall p, safe_prog p = true ->
-  forall fuel it s inl D T Ds Ts sc t0 o st',
-  safe_s inl s = true -> pre_s s D T ->
+(* ---- corollaries, for every program *)
+
+(* a statement (any outcome) leaves everything below its own level and the variable-scope depth as
+   they were *)
+Lemma stmt_balanced : forall p fuel it s D T Ds Ts sc t0 o st',
   mexec fuel p it s (mk (D :: Ds) (T :: Ts) sc t0) = Some (o, st') ->
   tl (dfs st') = Ds /\ tl (dts st') = Ts /\ scd st' = sc /\
   length (dfs st') = S (length Ds) /\ length (dts st') = S (length Ts).
 Proof.
-  intros p Hp fuel it s inl D T Ds Ts sc t0 o st' Hs Hpre E.
-  destruct (ref_all p Hp fuel) as (HPs & _ & _).
-  specialize (HPs it s inl D T Ds Ts sc t0 Hs Hpre).
+  intros p fuel it s D T Ds Ts sc t0 o st' E.
+  destruct (ref_all p fuel) as (HPs & _ & _).
+  specialize (HPs it s D T Ds Ts sc t0).
   destruct (sexec fuel p it s D T) as [[[[o1 t] D'] T']|].
-  - destruct HPs as [E1 _]. rewrite E1 in E. inversion E; subst; simpl. auto.
+  - destruct HPs as (st1 & E1 & R & _). rewrite E1 in E. inversion E; subst.
+    destruct R as [->|[_ ->]]; simpl; auto.
   - rewrite HPs in E. discriminate.
 Qed.
 
-Lemma call_balanced : forall p, safe_prog p = true ->
-  forall fuel it g D T Ds Ts sc t0 o st',
-  mexec fuel p it (SCall g) (mk (D :: Ds) (T :: Ts) sc t0) = Some (o, st') ->
-  dfs st' = D :: Ds /\ dts st' = T :: Ts /\ scd st' = sc.
+(* a call leaves both stacks exactly as they were - the caller's pending defers D and objects T included -
+   and what it prints is the callee's body as a Spec scope: a function of the callee alone *)
+Lemma call_balanced : forall p fuel it g D T Ds Ts sc t0 o st',
+  mexec (S fuel) p it (SCall g) (mk (D :: Ds) (T :: Ts) sc t0) = Some (o, st') ->
+  exists o1 t, scope_close (sexec_b fuel p None (body p g) [] []) = Some (o1, t) /\
+               o = call_outcome o1 /\ st' = mk (D :: Ds) (T :: Ts) sc (t0 ++ t).
 Proof.
-  intros p Hp fuel it g D T Ds Ts sc t0 o st' E.
-  destruct (ref_all p Hp fuel) as (HPs & _ & _).
-  specialize (HPs it (SCall g) false D T Ds Ts sc t0 eq_refl I).
-  destruct (sexec fuel p it (SCall g) D T) as [[[[o1 t] D'] T']|] eqn:ES.
-  - destruct HPs as [E1 _]. rewrite E1 in E. inversion E; subst; simpl.
-    apply sexec_DT in ES. simpl in ES. destruct ES as [-> ->]. now rewrite !app_nil_r.
+  intros p fuel it g D T Ds Ts sc t0 o st' E.
+  destruct (ref_all p (S fuel)) as (HPs & _ & _).
+  specialize (HPs it (SCall g) D T Ds Ts sc t0). simpl in HPs, E.
+  destruct (scope_close (sexec_b fuel p None (body p g) [] [])) as [[o1 t]|].
+  - destruct HPs as (st1 & E1 & _ & N). rewrite E1 in E. inversion E; subst.
+    exists o1, t. split; [reflexivity|]. split; [reflexivity|].
+    rewrite N by (destruct o1; discriminate). now rewrite ?app_nil_r.
   - rewrite HPs in E. discriminate.
+Qed.
+
+(* leaving a block - by whatever outcome - appends the block's reached defers LIFO, THEN its objects'
+   destructors LIFO, after everything the block itself printed *)
+Lemma block_exit_order : forall p fuel it b Xs Ys sc t0 o st',
+  mexec (S fuel) p it (SBlock b) (mk Xs Ys sc t0) = Some (o, st') ->
+  exists t D' T', sexec_b fuel p it b [] [] = Some (o, t, D', T') /\
+                  st' = mk Xs Ys sc (t0 ++ t ++ map EDefer (rev D') ++ map EDtor (rev T')).
+Proof.
+  intros p fuel it b Xs Ys sc t0 o st' E. simpl in E.
+  destruct (ref_all p fuel) as (_ & HPb & _).
+  pose proof (compound_ref p fuel HPb it b Xs Ys sc t0) as C.
+  destruct (sexec_b fuel p it b [] []) as [[[[o1 t] D'] T']|]; simpl in C.
+  - rewrite C in E. inversion E; subst. eauto.
+  - rewrite C in E. discriminate.
 Qed.
